@@ -1,4 +1,4 @@
-\* Atomic passages, the state graph is printed edge by edge and replayed on the real middleware
+\* MCRpc_replay.cfg -- generated from checks/X_limits.py (job rpc_replay_a); run: tlc -config MCRpc_replay.cfg MCRpcLimits.tla
 CONSTANTS
   Keys = {"a", "b", "c"}
   Reqs = {1, 2, 3}
